@@ -1371,6 +1371,89 @@ def check_diff_patch_disallowed(ctx, rng, tag):
                 ctx.violation("patch-disallowed-reverse-fails:%d:%s" % (k, ek), "hwloc-patch -R rc=%d: %s" % (rc, desc), rtxt)
 
 
+KINDS = {"none": 1, "all": 0, "structure": 2, "important": 3}
+CACHE_TYPES = list(range(5, 13))      # L1..L5, L1i..L3i
+
+
+def lstopo_filter_options():
+    """(lstopo arguments, configuration lines of the reference = the hwloc_topology_set_*_types_filter() calls the option
+    stands for).  lstopo's cache group includes MemCache (as its usage text says), its "all" sets every type in turn."""
+    opts = [(["--no-caches"], ["filter cache 1", "filter 15 1"]), (["--no-useless-caches"], ["filter cache 2", "filter 15 2"]),
+            (["--no-icaches"], ["filter icache 1"]), (["--no-io"], ["filter io 1"]), (["--no-bridges"], ["filter 16 1"]),
+            (["--whole-io"], ["filter io 0"]), (["--merge"], ["filter %d 2" % t for t in range(20)])]
+    for kn, kv in KINDS.items():
+        opts.append((["--filter", "cache:" + kn], ["filter cache %d" % kv, "filter 15 %d" % kv]))
+        opts.append((["--filter", "icache:" + kn], ["filter icache %d" % kv]))
+        opts.append((["--filter", "io:" + kn], ["filter io %d" % kv]))
+        opts.append((["--filter", "all:" + kn], ["filter %d %d" % (t, kv) for t in range(20)]))
+    for name, ty in (("l3i", 12), ("l2i", 11), ("l1i", 10), ("l5", 9), ("l1d", 5), ("memcache", 15), ("bridge", 16), ("pci", 17), ("os", 18), ("group", 13), ("core", 3)):
+        for kn in ("none", "structure"):
+            opts.append((["--filter", "%s:%s" % (name, kn)], ["filter %d %d" % (ty, KINDS[kn])]))
+    return opts
+
+
+def check_lstopo_filters(ctx, rng):
+    """lstopo's type-filter options over inputs that contain every member type of each group: the XML (and synthetic)
+    output must be the library export of the topology loaded with the corresponding set_*_types_filter() calls"""
+    lst = ctx.tools["lstopo-no-graphics"]
+    xmld = os.path.join(C.REPO, "tests/hwloc/xml")
+    inputs = [("synthetic", "pack:2 l5:1 l4:1 l3u:1 l3i:1 l2:2 l2i:1 l1d:1 l1i:1 core:1 pu:2"),
+              ("synthetic", "pack:2 [numa(memorysidecachesize=1048576)] group:1 l3u:1 l3i:1 l2:2 l2i:1 l1d:1 l1i:1 core:1 pu:2")]
+    for n in ("24em64t-2n6c2t-pci.xml", "memorysidecaches.xml"):
+        if os.path.exists(os.path.join(xmld, n)):
+            inputs.append(("xml", os.path.join(xmld, n)))
+    opts = lstopo_filter_options()
+    for k, (kind, arg) in enumerate(inputs):
+        sel = opts if ctx.run.tier == "thorough" else [o for o in opts if o[0][0] != "--filter"] + rng.sample([o for o in opts if o[0][0] == "--filter"], 10)
+        for j, (targs, conf) in enumerate(sel):
+            ref = Ref(ctx.refexe)
+            try:
+                for c in conf:
+                    ref.ask("config " + c)
+                lines = ref.ask("topo lstopo %s %s" % (kind, arg))
+                ok_ref = bool(lines) and lines[0] == "load rc=0"
+                fx = os.path.join(ctx.tmp, "lf-%d-%d.xml" % (k, j))
+                fr = os.path.join(ctx.tmp, "lfr-%d-%d.xml" % (k, j))
+                args = topo_args(kind, arg) + targs + ["--of", "xml", fx]
+                rc, out, err = run_tool(lst, args)
+                ctx.count("lstopo-filter|%s|%s|%d" % (arg, targs, rc), nontrivial=True, kind="lstopo-filter-option",
+                          sample={"topology": arg, "option": targs})
+                rtxt = replay_text(kind, arg, "lstopo-no-graphics", targs + ["--of", "xml"], "reference: %s\n" % "; ".join(conf))
+                if crashed(rc, err):
+                    ctx.violation("crash:lstopo-filter:%d:%s" % (k, "-".join(targs)), "lstopo crashed with %r" % targs, rtxt + err.decode(errors="replace")[-1500:])
+                    continue
+                if not ok_ref:
+                    if rc == 0:
+                        ctx.violation("lstopo-filter-status:%d:%s" % (k, "-".join(targs)), "lstopo %r succeeds, the library load with %r fails" % (targs, conf), rtxt)
+                    continue
+                r = ref.ask("xmlexport 0 " + fr)
+                if rc != 0 or not r or not r[0].startswith("xml rc=0") or not os.path.exists(fx):
+                    ctx.violation("lstopo-filter-status:%d:%s" % (k, "-".join(targs)), "lstopo %r rc=%d, library export %r" % (targs, rc, r), rtxt)
+                    continue
+                a, b = norm_xml(open(fx, "rb").read()), norm_xml(open(fr, "rb").read())
+                if a != b:
+                    ta = sorted(set(re.findall(rb'<object type="(\w+)"', a)))
+                    tb = sorted(set(re.findall(rb'<object type="(\w+)"', b)))
+                    ca = {t: len(re.findall(rb'<object type="%s"' % t, a)) for t in ta}
+                    cb = {t: len(re.findall(rb'<object type="%s"' % t, b)) for t in tb}
+                    diff = {t.decode(): (ca.get(t, 0), cb.get(t, 0)) for t in set(ta) | set(tb) if ca.get(t, 0) != cb.get(t, 0)}
+                    ctx.violation("lstopo-filter-xml:%s" % "-".join(targs),
+                                  "lstopo %s --of xml on %s is not the library export after %s: object counts (lstopo, library) that differ: %r"
+                                  % (" ".join(targs), arg, "; ".join(conf[:3]) + ("..." if len(conf) > 3 else ""), diff), rtxt)
+                    continue
+                ctx.bump("lstopo-filter-xml-equal")
+                rc, out, err = run_tool(lst, topo_args(kind, arg) + targs + ["--of", "synthetic"])
+                r = ref.ask("synexport 0")
+                m = re.match(r"syn (-?\d+) ?(.*)", r[0]) if r else None
+                if m and int(m.group(1)) >= 0 and (rc != 0 or out.decode("latin-1") != m.group(2) + "\n"):
+                    ctx.violation("lstopo-filter-syn:%s" % "-".join(targs), "lstopo %s --of synthetic prints %r, the library export is %r"
+                                  % (" ".join(targs), out[:200], m.group(2)[:200]), rtxt)
+                elif m and int(m.group(1)) >= 0:
+                    ctx.bump("lstopo-filter-syn-equal")
+            finally:
+                ref.close()
+
+
 BOUNDARIES = (4096, 8192, 16384, 65536)
 
 
@@ -1909,7 +1992,8 @@ def check(run, replay=None):
             drng = random.Random(rng.getrandbits(64))
             futs = [ex.submit(one, i) for i in range(len(topos))] + [ex.submit(check_lstopo_long_synthetic, ctx, lrng),
                                                                       ex.submit(check_diff_patch_disallowed, ctx, drng, "dis"),
-                                                                      ex.submit(check_stdin_boundaries, ctx, random.Random(rng.getrandbits(64)))]
+                                                                      ex.submit(check_stdin_boundaries, ctx, random.Random(rng.getrandbits(64))),
+                                                                      ex.submit(check_lstopo_filters, ctx, random.Random(rng.getrandbits(64)))]
             for f in futs:
                 f.result()
         run.cov["topologies"] = {"synthetic": sum(1 for t in topos if t[0] == "synthetic"), "xml": sum(1 for t in topos if t[0] == "xml")}
